@@ -18,9 +18,9 @@ type HeapV struct {
 }
 
 type State struct {
-	heaps map[string]*HeapV // key: family#comp
-	ctr   string
-	ghost map[string]string // ghost variables (held locks, call counters)
+	heaps  map[string]*HeapV // key: family#comp
+	ctr    string
+	ghost  map[string]string // ghost variables (held locks, call counters)
 	events map[string]string // family -> id of the last havoc/merge event (for heap keys not yet materialised)
 }
 
